@@ -81,6 +81,10 @@ def ord15(P, R, L):
     else:
         R.analysed(d)
         lk = K.normal_sites(d, declared(LOCK_FILE))
+        if not lk:
+            # the acquisition may live in a private helper that returns the FileLock (or the error)
+            lk = [c for c in sites_reaching(P, d, declared(LOCK_FILE)) if "FileLock" in d.local_ty(c.dest["l"])]
+        lk_bbs = {c.bb for c in lk}
         rms = [c for c in d.calls() if not d.is_cleanup(c.bb) and c.declared_name in (FS + "remove_file", FS + "remove_dir", FS + "remove_dir_all")]
         R.floor("ORD-15", "remove_* sites in destroy_database", len(rms), 5)
         for r in rms:
@@ -89,7 +93,7 @@ def ord15(P, R, L):
                     "every removal in destroy_database runs only over the success edge of lock_file", "; ".join(k[1] for k in oks))
         # removals of database files (not the lock file itself / root dir) happen while the lock is still held
         drops = [(c.bb, c.target, c.line) for c in d.calls() if c.name == "std::mem::drop" and not d.is_cleanup(c.bb) and c.target is not None
-                 and any(x.kind == "call" and x.name == LOCK_FILE for x in origins(d, c.args[0]))]
+                 and any(x.kind == "call" and (x.name == LOCK_FILE or (x.site is not None and x.site.bb in lk_bbs)) for x in origins(d, c.args[0]))]
         # scope-end / `let _ =` drops of the FileLock (MIR drop terminators on normal flow)
         for bb in range(d.n):
             t = d.term(bb)
